@@ -119,14 +119,14 @@ theorem set {m : Mat} {i j : Nat} {v : ExtRat} (hle : v ≤ m i j)
     (hb : ∀ p, P p → Holds S p m → S i j → fin (p j - p i) ≤ v) : Pres S P m (m.set i j v) := by
   constructor
   · intro p hp h a b hab
-    simp only [Mat.set]
+    simp only [Mat.set_apply]
     split
     · rename_i hc
       obtain ⟨rfl, rfl⟩ := hc
       exact hb p hp h hab
     · exact h a b hab
   · intro a b
-    simp only [Mat.set]
+    simp only [Mat.set_apply]
     split
     · rename_i hc
       obtain ⟨rfl, rfl⟩ := hc
